@@ -5,7 +5,9 @@ Driver ops for network / mesh nodes: one session per line.
 
 ops:  new <node> <routing|network|mesh|master> <radio> <address-or-id>
       <node> update | read | write <to> <type> <hex> <direct> | multicast <hex> <type> <level|N>
-      <node> set <attr> <value>
+      <node> set <attr> <value> | get <node_address|parent|fragmentation|multicast_level|…> | available | peek
+      <node> nsend <to> <type> <hex>                (RF24Network.send(header, message))
+      <node> rf <RF24 op>   (the RadioMixin pass-throughs) | enter | exit   (`with node:` on a shared radio)
       <node> renew <ms> | release | lookup_address <id> | lookup_node_id <addr|N>
              | check_connection <n> <T|F> | send <id> <type> <hex> | mwrite <addr> <type> <hex>
              | setaddr <id> <addr> | release_address <addr>
@@ -50,8 +52,44 @@ def sOptNat : Option Nat → String
   | none => "N"
   | some n => toString n
 
+/-- the members `RadioMixin` passes through to `self._rf24` unchanged (network/mixins.py:74-160) -/
+def mixinOp : List String → Bool
+  | ["flush_rx"] | ["flush_tx"] | ["fifo", _, _] | ["get", "power"] | ["set", "power", _]
+  | ["get", "channel"] | ["set", "channel", _] | ["set_dynamic_payloads", _, _] | ["get_dynamic_payloads", _]
+  | ["get", "listen"] | ["set", "listen", _] | ["get", "pa_level"] | ["set", "pa_level", _]
+  | ["get", "is_lna_enabled"] | ["get", "data_rate"] | ["set", "data_rate", _] | ["get", "crc"] | ["set", "crc", _]
+  | ["get_auto_retries"] | ["set_auto_retries", _, _] | ["get", "last_tx_arc"] | ["address", _]
+  | ["interrupt_config", _, _, _] | ["enter"] | ["exit"] => true
+  | _ => false
+
+/-- a `RadioMixin` member = the same call on the node's own `RF24` object (an exception is rendered, like
+    every result of `rf24Call`, as `exc=<name>`) -/
+def rfPass (toks : List String) : NetM String := fun s =>
+  let n := s.nodes.getD s.cur default
+  match rf24Call n.rf s.w toks with
+  | some (res, d', w') =>
+    (.ok res, { s with nodes := s.nodes.modify s.cur (fun n => { n with rf := d' }), w := w' })
+  | none => (.ok "bad-op", s)
+
 def nodeCall (toks : List String) : Option (NetM String) :=
   match toks with
+  | "rf" :: rest =>
+    if mixinOp rest && (rf24Call {} (World.fresh 1) rest).isSome then some (rfPass rest) else none
+  | ["enter"] => some (rfPass ["enter"])
+  | ["exit"] => some (rfPass ["exit"])
+  | ["available"] => some (do return sBool (!(← getNode).queue.frames.isEmpty))
+  | ["peek"] => some (do
+      match (← getNode).queue.frames.head? with
+      | none => return "N"
+      | some f => return showFrame f)
+  | ["get", "node_address"] => some (do return toString (← getNode).a.addr)
+  | ["get", "parent"] => some (do return toString (← getNode).a.parent)
+  | ["get", "fragmentation"] => some (do return sBool (← getNode).fragEnabled)
+  | ["get", "multicast_level"] => some (do return toString (← getNode).a.netLvl)
+  | ["get", "multicast_relay"] => some (do let n ← getNode; return sBool (n.cfg.allowMulticast && n.relayEnabled))
+  | ["nsend", to, ty, msg] => do
+    let to ← parseInt to; let ty ← parseInt ty; let msg ← unhex msg
+    some (do let (r, _) ← apiNetWrite to ty msg 0o70; return sBool r)
   | ["update"] => some (do return toString (← apiUpdate))
   | ["read"] => some (do
       match (← apiRead) with
